@@ -10,7 +10,7 @@
      C05  the operator-tree optimiser returns an operator with the same value and Jacobian (slots may be re-used: shared sub-trees) *)
 EXTENDS Rat, FiniteSets, Json
 CONSTANTS MaxSlots, FnSet,
-          Preload       \* TRUE: the program starts with the slots a, b (all programs over BOTH keys with few further slots; C04)
+          Preload       \* "none" | "ab": the program starts with the slots a, b (all programs over BOTH keys with few further slots; C04); "tagged": a, b, a.ducktape_left(s), b.ducktape_left(s)
 VARIABLES slots
 Const(c) == [t |-> "c", v |-> c]
 X(k, j) == [t |-> "x", k |-> k, j |-> j]
@@ -113,15 +113,15 @@ Deg(e) == CASE e.t = "c" -> 0
 \* ---- programs ----------------------------------------------------------------------------------------------------------
 \* slot: [op, x, y, f, p, shape ("vec": 2 entries | "scal": 1), val: Seq(expr), keys: set of keys used]
 Slot(op, x, y, f, p, shape, val, keys) == [op |-> op, x |-> x, y |-> y, f |-> f, p |-> p, shape |-> shape, val |-> val, keys |-> keys]
-N(s) == IF s.shape = "vec" THEN 2 ELSE 1
+N(s) == IF s.shape \in {"vec", "tvec"} THEN 2 ELSE 1          \* "tvec": a multi-field valued slot with the single key "s" (ducktape_left)
 SI == 1..Len(slots)
 Push(s) == Len(slots) < MaxSlots /\ slots' = Append(slots, s)
 LinM == <<<<Z(1), Z(2)>>, <<Z(0), R(-1, 2)>>>>                     \* the matrix of the linear leaf operator
 Fns1 == {"exp", "log", "log10", "log1p", "expm1", "sin", "cos", "tan", "sinh", "cosh", "tanh", "sigmoid", "arctan", "sqrt", "reciprocal",
          "softplus", "sinc", "abs", "sign", "unitstep"}
 FnsP == {<<"power", <<Z(3)>>>>, <<"power", <<R(1, 2)>>>>, <<"exponentiate", <<Z(2)>>>>, <<"clip", <<R(1, 3), Z(1)>>>>, <<"clip", <<Z(-1), Z(4)>>>>}
-UseFns1 == IF FnSet = "all" THEN Fns1 ELSE IF FnSet = "few" THEN {"exp", "tanh", "reciprocal", "sqrt"} ELSE {"reciprocal"}
-UseFnsP == IF FnSet = "all" THEN FnsP ELSE IF FnSet = "few" THEN {<<"power", <<Z(3)>>>>, <<"clip", <<R(1, 3), Z(1)>>>>} ELSE {<<"power", <<Z(3)>>>>}
+UseFns1 == IF FnSet = "all" THEN Fns1 ELSE IF FnSet = "few" THEN {"exp", "tanh", "reciprocal", "sqrt"} ELSE IF FnSet = "share" THEN {"exp", "tanh", "sin"} ELSE {"reciprocal"}
+UseFnsP == IF FnSet = "all" THEN FnsP ELSE IF FnSet = "few" THEN {<<"power", <<Z(3)>>>>, <<"clip", <<R(1, 3), Z(1)>>>>} ELSE IF FnSet = "share" THEN {<<"power", <<Z(2)>>>>} ELSE {<<"power", <<Z(3)>>>>}
 MkVar == \E k \in {"a", "b"} : Push(Slot("var", 0, 0, k, NoP, "vec", <<X(k, 1), X(k, 2)>>, {k}))
 MkBin == \E i, j \in SI : \E op \in {"add", "sub", "mul"} :
            /\ slots[i].shape = slots[j].shape
@@ -139,12 +139,38 @@ MkLin == \E i \in SI : slots[i].shape = "vec" /\
 MkSum == \E i \in SI : slots[i].shape = "vec" /\ Push(Slot("sum", i, 0, "", NoP, "scal", <<Add(slots[i].val[1], slots[i].val[2])>>, slots[i].keys))
 MkVdot == \E i, j \in SI : slots[i].shape = "vec" /\ slots[j].shape = "vec" /\
             Push(Slot("vdot", i, j, "", NoP, "scal", <<Add(Mul(slots[i].val[1], slots[j].val[1]), Mul(slots[i].val[2], slots[j].val[2]))>>, slots[i].keys \cup slots[j].keys))
+\* key insertion / extraction on the output side: x.ducktape_left("s") and its inverse
+MkTag == \E i \in SI : slots[i].shape = "vec" /\ Push(Slot("tag", i, 0, "", NoP, "tvec", slots[i].val, slots[i].keys))
+MkUntag == \E i \in SI : slots[i].shape = "tvec" /\ Push(Slot("untag", i, 0, "", NoP, "vec", slots[i].val, slots[i].keys))
+\* VariableCovarianceGaussianEnergy(residual = slot i, inverse variance = slot j): sum 1/2 r^2 v - 1/2 log v (real residuals)
+MkVcg == \E i, j \in SI : i # j /\ slots[i].shape = "vec" /\ slots[j].shape = "vec" /\
+           Push(Slot("vcg", i, j, "", NoP, "scal",
+                     <<Add(Add(Mul(Half, Mul(Pow(slots[i].val[1], Z(2)), slots[j].val[1])), Neg(Mul(Half, F0("log", slots[j].val[1])))),
+                           Add(Mul(Half, Mul(Pow(slots[i].val[2], Z(2)), slots[j].val[2])), Neg(Mul(Half, F0("log", slots[j].val[2])))))>>, slots[i].keys \cup slots[j].keys))
 \* GaussianEnergy with unit covariance: 1/2 x.x (an energy: a metric can be requested)
 MkGauss == \E i \in SI : slots[i].shape = "vec" /\
             Push(Slot("gauss", i, 0, "", NoP, "scal", <<Mul(Half, Add(Pow(slots[i].val[1], Z(2)), Pow(slots[i].val[2], Z(2))))>>, slots[i].keys))
 VarSlot(k) == Slot("var", 0, 0, k, NoP, "vec", <<X(k, 1), X(k, 2)>>, {k})
-Init == slots = IF Preload THEN <<VarSlot("a"), VarSlot("b")>> ELSE <<>>
-Next == MkVar \/ MkBin \/ MkPtw \/ MkScale \/ MkAddC \/ MkLin \/ MkSum \/ MkVdot \/ MkGauss
+\* scripted deep programs (sharing patterns that the bounded enumerations do not reach)
+PtwS(i, f, src) == Slot("ptw", i, 0, f, NoP, src.shape, [n \in 1..N(src) |-> F0(f, src.val[n])], src.keys)
+PowS(i, src) == Slot("ptw", i, 0, "power", <<Z(2)>>, src.shape, [n \in 1..N(src) |-> Pow(src.val[n], Z(2))], src.keys)
+AddS(i, j, si, sj) == Slot("add", i, j, "", NoP, si.shape, [n \in 1..N(si) |-> Add(si.val[n], sj.val[n])], si.keys \cup sj.keys)
+MulS(i, j, si, sj) == Slot("mul", i, j, "", NoP, si.shape, [n \in 1..N(si) |-> Mul(si.val[n], sj.val[n])], si.keys \cup sj.keys)
+\* u = tanh(sin a), w = exp(u):  sin(w) + tanh(w) + u^2   (leaf sharing that is discovered in two rounds)
+MultiRound == LET s1 == VarSlot("a")  s2 == PtwS(1, "sin", s1)  s3 == PtwS(2, "tanh", s2)  s4 == PtwS(3, "exp", s3)  s5 == PtwS(4, "sin", s4)
+                  s6 == PtwS(4, "tanh", s4)  s7 == AddS(5, 6, s5, s6)  s8 == PowS(3, s3)  s9 == AddS(7, 8, s7, s8) IN <<s1, s2, s3, s4, s5, s6, s7, s8, s9>>
+\* n = exp(a) b:  (n + a) (n + exp(a))   (one product node below two different parents)
+TwoParents == LET s1 == VarSlot("a")  s2 == VarSlot("b")  s3 == PtwS(1, "exp", s1)  s4 == MulS(3, 2, s3, s2)  s5 == AddS(4, 1, s4, s1)
+                  s6 == AddS(4, 3, s4, s3)  s7 == MulS(5, 6, s5, s6) IN <<s1, s2, s3, s4, s5, s6, s7>>
+TagSlot(i, k) == Slot("tag", i, 0, "", NoP, "tvec", <<X(k, 1), X(k, 2)>>, {k})
+Init == slots = CASE Preload = "ab" -> <<VarSlot("a"), VarSlot("b")>>
+                  [] Preload = "multiround" -> MultiRound
+                  [] Preload = "twoparents" -> TwoParents
+                  [] Preload = "tagged" -> <<VarSlot("a"), VarSlot("b"), TagSlot(1, "a"), TagSlot(2, "b")>>
+                  [] OTHER -> <<>>
+\* FnSet = "share": only keys, sums, products and three point-wise functions - deep programs whose slots are re-used many times (C05)
+Next == IF FnSet = "share" THEN MkVar \/ MkBin \/ MkPtw
+        ELSE MkVar \/ MkBin \/ MkPtw \/ MkScale \/ MkAddC \/ MkLin \/ MkSum \/ MkVdot \/ MkGauss \/ MkTag \/ MkUntag \/ (FnSet # "few" /\ MkVcg)
 Spec == Init /\ [][Next]_slots
 Last == slots[Len(slots)]
 \* ---- the law: symbolic derivative = dual-number derivative on the rational sub-language --------------------------------------
@@ -168,6 +194,11 @@ EJ(e) == CASE e.t = "c" -> [t |-> "c", v |-> RJ(e.v)]
 Emit == Len(slots) < MaxSlots \/
         PrintT(ToJson([prog |-> [i \in SI |-> [op |-> slots[i].op, x |-> slots[i].x, y |-> slots[i].y, f |-> slots[i].f, p |-> [q \in 1..Len(slots[i].p) |-> RJ(slots[i].p[q])]]],
                        shape |-> Last.shape, keys |-> Last.keys, val |-> [n \in 1..N(Last) |-> EJ(Last.val[n])],
+                       mterms |-> IF Last.op = "vcg" THEN
+                                    [n \in 1..4 |-> LET pix == IF n <= 2 THEN n ELSE n - 2  src == IF n <= 2 THEN slots[Last.x] ELSE slots[Last.y] IN
+                                       [g |-> [kj \in 1..4 |-> EJ(S(D(src.val[pix], IF kj <= 2 THEN "a" ELSE "b", IF kj <= 2 THEN kj ELSE kj - 2)))],
+                                        w |-> EJ(IF n <= 2 THEN slots[Last.y].val[pix] ELSE Mul(Half, Pow(slots[Last.y].val[pix], Z(-2))))]]
+                                  ELSE <<>>,
                        inner |-> IF Last.op = "gauss" THEN [n \in 1..2 |-> [kj \in 1..4 |-> EJ(S(D(slots[Last.x].val[n], IF kj <= 2 THEN "a" ELSE "b", IF kj <= 2 THEN kj ELSE kj - 2)))]] ELSE <<>>,
                        jac |-> [n \in 1..N(Last) |-> [kj \in 1..4 |-> EJ(S(D(Last.val[n], IF kj <= 2 THEN "a" ELSE "b", IF kj <= 2 THEN kj ELSE kj - 2)))]]]))
 =============================================================================
